@@ -118,7 +118,8 @@ ROUND3B = {
 ROUND4 = {
     "C10": " Round four: standard input delivered in pieces (short reads on fd 0; scenario two-files-stdin-in-pieces, seeded change C10-m5).",
     "C18": " Round four: C18_run_delete_backup (_gen/_name/_stamped/_dry): the removal of a file with --backup, end to end about runPatch - the backup holds the "
-           "pre-patch bytes and mode, the file is gone, nothing else changes, one rename and no unlink.",
+           "pre-patch bytes and mode, the file is gone, nothing else changes, one rename and no unlink. C18_run_create_backup (_of_lines/_gen/_taken/_dry): the creation of a file with --backup - an empty backup is made before the "
+           "target, a file or link in its way is unlinked first.",
 }
 for k, v in ROUND3B.items():
     ROUND3[k] = ROUND3.get(k, "") + v
